@@ -137,7 +137,8 @@ def rule_srv_pick(ctx):
     sg = ctx.index.func(TLSCONN + "_serverGetClientHello")
     srcs = [norm(n) for n in own_nodes(sg.node) if isinstance(n, (ast.Assign, ast.AugAssign))
             and norm(n.targets[0] if isinstance(n, ast.Assign) else n.target) == "cipherSuites"]
-    ok = any("CipherSuite.filterForVersion(cipherSuites, minVersion=version, maxVersion=version)" in s for s in srcs) \
+    ok = any("CipherSuite.filterForVersion(cipherSuites, minVersion=version, maxVersion=version)" in s
+             or "CipherSuite.filterForVersion(cipherSuites, version, version)" in s for s in srcs) \
         and sum(1 for s in srcs if "CipherSuite.get" in s and "(settings, version)" in s.replace("\n", "")) >= 6
     ctx.check(R, ok, sg.qname, "server suite list = get*Suites(settings, version) filtered for the version",
               "the server's suite list must be built from CipherSuite.get*Suites(settings, version) and "
